@@ -100,6 +100,8 @@ def shrink_history(binp, h, pred, want, budget_s=120, extra_head=""):
     """remove steps while the same code still shows up (one replay + one coqc per round)"""
     t0 = time.time()
     cur = h
+    if os.environ.get("VERIF_NOSHRINK"):   # the seed matrix only needs the verdict
+        return cur
     while time.time() - t0 < budget_s:
         n = len(cur["steps"])
         if n <= 1:
